@@ -3,6 +3,7 @@ import OrsoVerif.Lemmas.Encodings
 import OrsoVerif.Lemmas.EncodingsGen
 import OrsoVerif.Lemmas.EncodingsUnique
 import OrsoVerif.Lemmas.EncodingsDType
+import OrsoVerif.Lemmas.EncodingsMapped
 /-!
 # C09 — Compressed column encodings are lossless
 
@@ -695,6 +696,63 @@ theorem sparse_dtype_lossless (i2f : Int → UInt64) (ne : PyVal → PyVal → B
   rw [this, hdec]
   rfl
 
+/-- **Dtype-changing maps on a sparse column** (`values / 2` on integers, `values.astype(str)`, wider text):
+a function `f` applied to the stored values, whose results are of dtype `vdt'` -- any dtype, not the one the
+column was built with -- and which fixes the default in the result dtype (`hfix`: at a position the scan
+dropped, `f x` and the default are the same value there; `f 0 = 0.0` against the default `0` counts).  Then
+`materialize` of the mapped stored form succeeds, its dtype is the join of the *mapped* values' dtype and the
+default's, and the expansion is `f` applied to every element of the original, each at most widened. -/
+theorem sparse_dtype_lossless_mapped (i2f : Int → UInt64) (ne : PyVal → PyVal → Bool) (f : PyVal → PyVal)
+    (d : PyVal) (vdt' ddt : DType) (xs : List PyVal)
+    (hd : scalarDType d = some ddt) (hdd : holds ddt d = true)
+    (hx : ∀ x ∈ xs, holds vdt' (f x) = true)
+    (hfix : ∀ x ∈ xs, ne x d = false →
+      castInto i2f (DType.join vdt' ddt) (f x) = castInto i2f (DType.join vdt' ddt) d) :
+    ∃ c : PyVal → PyVal, (∀ x ∈ xs, Widened i2f (f x) (c (f x))) ∧
+      sparseMaterialize i2f d vdt' ((sparseEncode ne d xs).mapValues f)
+        = some (DType.join vdt' ddt, xs.map fun x => c (f x)) := by
+  let rt := DType.join vdt' ddt
+  let c : PyVal → PyVal := fun v => (castInto i2f rt v).getD v
+  have hcx : ∀ x ∈ xs, castInto i2f rt (f x) = some (c (f x)) ∧ Widened i2f (f x) (c (f x)) := by
+    intro x hxm
+    obtain ⟨w, hw, hW⟩ := cast_into_wider i2f vdt' rt (f x) (hx x hxm) (DType.le_join_left vdt' ddt)
+    simp only [c, hw, Option.getD_some]; exact ⟨trivial, hW⟩
+  have hcd : castInto i2f rt d = some (c d) := by
+    obtain ⟨w, hw, _⟩ := cast_into_wider i2f ddt rt d hdd (DType.le_join_right vdt' ddt)
+    simp only [c, hw, Option.getD_some]
+  have hmem : ∀ v ∈ (sparseEncode ne d xs).values, v ∈ xs := by
+    intro v hv
+    obtain ⟨p, hp, rfl⟩ := List.mem_map.mp (show v ∈ (sparseScan ne d 0 xs).map (·.2) from hv)
+    have := (sparseScan_range ne d xs 0 p hp).2.2
+    exact List.mem_of_getElem? this
+  have hvals : ((sparseEncode ne d xs).mapValues f).values.mapM (castInto i2f rt)
+      = some (((sparseEncode ne d xs).mapValues f).values.map c) :=
+    mapM_some_of_forall _ fun v hv => by
+      obtain ⟨u, hu, rfl⟩ := List.mem_map.mp (show v ∈ (sparseEncode ne d xs).values.map f from hv)
+      exact (hcx u (hmem u hu)).1
+  have hdec : sparseDecode (c d) ((sparseEncode ne d xs).mapValues fun x => c (f x)) = some (xs.map fun x => c (f x)) := by
+    have h := scatter_scan_to ne d (fun x => c (f x)) (c d) xs (fun x hxm hx0 => by
+      have h1 := (hcx x hxm).1
+      have h2 := hfix x hxm hx0
+      rw [show DType.join vdt' ddt = rt from rfl, h1, hcd] at h2
+      exact Option.some.inj h2) []
+    simp only [List.nil_append, List.length_nil] at h
+    unfold sparseDecode sparseEncode Sparse.mapValues
+    simp only [List.length_map, if_true]
+    rw [List.zip_map_right, zip_map_fst_snd]
+    have e : (Prod.map id (fun x => c (f x)) : Nat × PyVal → Nat × PyVal) = fun p => (p.1, c (f p.2)) := by
+      funext p; cases p; rfl
+    rw [e]
+    simpa using h
+  refine ⟨c, fun x hxm => (hcx x hxm).2, ?_⟩
+  unfold sparseMaterialize
+  simp only [hd, Option.bind_eq_bind, Option.bind_some, show DType.join vdt' ddt = rt from rfl, hcd, hvals]
+  have : ({ (sparseEncode ne d xs).mapValues f with values := ((sparseEncode ne d xs).mapValues f).values.map c } : Sparse PyVal)
+      = (sparseEncode ne d xs).mapValues fun x => c (f x) := by
+    simp [Sparse.mapValues, List.map_map, Function.comp_def]
+  rw [this, hdec]
+  rfl
+
 /-- The defect of the pinned tree, on the model: taking the dtype of the default alone narrows
 a float to an integer (default `0`: `1.5 ↦ 1`) and cuts text to the width of the default
 (default `""`, dtype `<U1`: at most one character survives). -/
@@ -839,6 +897,91 @@ theorem sparse_result_dtype_mixed_u64 (a b : Num) (h : a.mixedU64 b = true) :
     Gen.Encodings.sparseResultDType (.num a) (.num b) = .num .f64 := by
   cases a <;> cases b <;> first | decide | (exfalso; revert h; decide)
 
+/-! ## Families of function columns: every expansion is judged against *its* column's configuration
+
+Several function columns over one binding (a query carries `f(1)`, `f(1.0)`, `f(True)` side by side), the
+same column expanded again after its configuration was reassigned: whatever an earlier expansion computed
+must not show in a later one. -/
+
+/-- **History independence, on the translated code**: in every history of expansions -- any number of
+column objects, bindings, configurations, lengths, in any order -- each expansion is the value of *that*
+use's binding on *that* use's configuration, repeated to *that* use's length.  (The translated
+`FunctionColumn.materialize` reads nothing but the column's three fields; a `materialize` that consults
+module-level state is outside the translated subset and degrades.) -/
+theorem gen_function_family_independent {γ : Type} (us : List (FnUse γ α)) :
+    familyRun us = (familyExpand us).map some ∧
+    familyExpand us = us.map fun u => List.replicate u.length (u.binding u.configuration) := by
+  refine ⟨?_, rfl⟩
+  unfold familyRun familyExpand
+  rw [List.map_map]
+  exact List.map_congr_left fun u _ => gen_function_materialize_refines u.binding u.configuration u.length
+
+/-- **A function column declared without a configuration calls its binding with no arguments** (the
+dataclass default `configuration: Tuple = field(default_factory=tuple)`, extracted on every run): its
+expansion is the value of `binding()` repeated to its length. -/
+theorem gen_function_default_configuration (binding : List β → α) (pad : β) (n : Nat) :
+    Gen.Encodings.functionConfigurationArity = 0 ∧
+    Gen.Encodings.functionMaterialize binding (List.replicate Gen.Encodings.functionConfigurationArity pad) n
+      = some (List.replicate n (binding [])) := by
+  refine ⟨rfl, ?_⟩
+  rw [gen_function_materialize_refines]
+  rfl
+
+/-- The same, position by position: what stands before and after a use in the history is irrelevant to it. -/
+theorem gen_function_family_at {γ : Type} (pre post : List (FnUse γ α)) (u : FnUse γ α) :
+    (familyRun (pre ++ u :: post))[pre.length]? = some (some (List.replicate u.length (u.binding u.configuration))) := by
+  rw [(gen_function_family_independent _).1, (gen_function_family_independent _).2]
+  simp
+
+/-- **When a memo in front of the binding is admissible**: if the key comparison only identifies
+configurations on which the binding agrees (identity does; Python's `==` does not, see below), then every
+history evaluated through the memo -- starting from any memo that holds only values of the binding -- equals
+the history evaluated directly. -/
+theorem memo_family_exact {γ : Type} (keq : γ → γ → Bool) (binding : γ → α)
+    (hk : ∀ a b, keq a b = true → binding a = binding b)
+    (memo : List (γ × α)) (hm : ∀ e ∈ memo, e.2 = binding e.1) (us : List (γ × Nat)) :
+    memoFamily keq binding memo us = us.map fun u => List.replicate u.2 (binding u.1) := by
+  induction us generalizing memo with
+  | nil => rfl
+  | cons u rest ih =>
+    obtain ⟨c, n⟩ := u
+    simp only [memoFamily, List.map_cons]
+    cases hf : memo.find? (fun e => keq e.1 c) with
+    | some e =>
+      have he := List.find?_some hf
+      have hmem := List.mem_of_find?_eq_some hf
+      have hv : e.2 = binding c := by rw [hm e hmem]; exact hk _ _ he
+      simp only [memoLookup, hf, hv]
+      rw [ih memo hm]
+    | none =>
+      simp only [memoLookup, hf]
+      rw [ih (memo ++ [(c, binding c)])]
+      intro e he
+      rcases List.mem_append.mp he with h | h
+      · exact hm e h
+      · simp at h; subst h; rfl
+
+/-- **The condition is necessary** (the full statement "a memo keyed by any comparison is lossless" is
+false): two configurations the comparison identifies and the binding tells apart give a history of two
+expansions whose second one is the value computed for the *other* column. -/
+theorem memo_family_inexact {γ : Type} (keq : γ → γ → Bool) (binding : γ → α) (a b : γ)
+    (hab : keq a b = true) (hne : binding a ≠ binding b) :
+    memoFamily keq binding [] [(a, 1), (b, 1)] = [[binding a], [binding a]] ∧
+    memoFamily keq binding [] [(a, 1), (b, 1)] ≠ [(a, 1), (b, 1)].map fun u => List.replicate u.2 (binding u.1) := by
+  have h : memoFamily keq binding [] [(a, 1), (b, 1)] = [[binding a], [binding a]] := by
+    simp [memoFamily, memoLookup, hab]
+  refine ⟨h, ?_⟩
+  rw [h]
+  simp
+  exact hne
+
+/-- The counterexample on Python values (the seeded class: a memo keyed by `==` / `hash`): `1 == True`, so
+the column over `True` expands to the integer computed for the column over `1` -- a value of another type. -/
+theorem memo_python_eq_mixes_kinds (i2f : Int → UInt64) :
+    pyEq i2f (.int 1) (.bool true) = true ∧
+    memoFamily (pyEq i2f) id [] [(.int 1, 2), (.bool true, 1)] = [[.int 1, .int 1], [.int 1]] := by
+  simp [memoFamily, memoLookup, pyEq]
+
 /-! ## Non-vacuity -/
 
 example : (rleEncode (fun a b : Nat => a == b) [3, 3, 5, 3]).values = [3, 5, 3] ∧
@@ -862,6 +1005,16 @@ example : sparseDecode 0 ((sparseEncode (fun a b : Nat => a != b) 0 [7, 0, 9]).m
 example : scalarDType (.str "a\x00") = none ∧ scalarDType (.str "a\x00b") = some (.str 3) := by decide
 example : scalarDType (.int 0) = some .int ∧ holds .int (.int 0) = true ∧
     holds .float (.float 0x3FF8000000000000) = true ∧ DType.join .float .int = .float := by decide
+
+/-- the hypotheses of `sparse_dtype_lossless_mapped` are satisfiable by a dtype-changing map: booleans with the
+default `False`, mapped to integers (`astype(int64)`): the expansion is the integers, the default position `0` -/
+example : sparseMaterialize (fun _ => 0) (.bool false) .int
+    ((sparseEncode (pyNe (fun _ => 0)) (.bool false) [.bool true, .bool false, .bool true]).mapValues
+      fun v => match v with | .bool b => .int (if b then 1 else 0) | v => v)
+    = some (.int, [.int 1, .int 0, .int 1]) := by decide
+example : familyRun [⟨fun x : Nat => x * 3, 1, 2⟩, ⟨fun x : Nat => x + 1, 1, 0⟩, ⟨fun x : Nat => x * 3, 2, 1⟩]
+    = [some [3, 3], some [], some [6]] := by decide
+example : memoFamily (fun a b : Nat => a == b) (· * 3) [] [(1, 2), (2, 1), (1, 1)] = [[3, 3], [6], [3]] := by decide
 
 example : Num.exactInto .i32 .f64 = true ∧ Num.exactInto .i64 .f64 = false ∧ Num.exactInto .f32 .f64 = true ∧
     Num.exactInto .f64 .f32 = false ∧ Num.exactInto .u8 .i8 = false := by decide
